@@ -22,7 +22,8 @@ Inductive op :=
 | OS (k : N) (v : val)                                  (* Set *)
 | OU (k : N) (v : val)                                  (* SetOrUpdate *)
 | OM (hint : N) (ht : list (N * N)) (ops : list op)     (* Merge(src), src = New(hint) + ops (OS/OU), own seed *)
-| OC (o : obs).                                         (* checkpoint *)
+| OC (o : obs)                                          (* checkpoint *)
+| OCl.                                                  (* Clear *)
 
 Record case := Case {
   c_hint : N;                 (* New(hint) *)
@@ -103,6 +104,7 @@ Fixpoint run_chk (hash : N -> N) (m : res hm) (ops : list op) : res hm * bool :=
       let hs := hash_of ht in
       let src := run_plain hs (Ok (new_hint (N.to_nat hint))) ops' in
       run_chk hash (res_bind m (fun m => res_bind src (fun s => merge hash hs m s))) r
+    | OCl => run_chk hash (res_bind m (fun m => Ok (clear m))) r
     | OC ob =>
       match m with
       | Ok mm => let '(m', b) := run_chk hash m r in (m', check_obs hash mm ob && b)
@@ -158,6 +160,7 @@ Fixpoint holds_run (sp : list (N * val)) (ops : list op) : bool :=
   | OM _ _ ops' :: r =>
     holds_run (fold_left (fun acc e => sp_add (fst e) (snd e) acc) (sp_plain [] ops') sp) r
   | OC o :: r => holds_obs sp o && holds_run sp r
+  | OCl :: r => holds_run [] r
   end.
 
 (* does the observed behaviour satisfy the property? *)
